@@ -545,6 +545,7 @@ KV = "nostr_relay/storage/kv.py"
 BASE = "nostr_relay/storage/base.py"
 
 MUTANTS = [
+    M("c12-sender-gets-wrapper", "nostr_relay/web.py", "                            send_subscriptions(subscription_queue.get, ws_send, log)", "                            send_subscriptions(subscription_queue.get, lambda m: asyncio.wait_for(ws_send(m), 5), log)", "C12.plainsend"),
     M("c12-sender-skips-after-close", "nostr_relay/web.py", "            if event is not None:\n                message = event_as_json(sub_id, event)", "            if event is not None:\n                if not event.content:\n                    continue\n                message = event_as_json(sub_id, event)", "C12.sender"),
     M("c12-skip-short-id", "nostr_relay/storage/base.py", "        if len(hexid) < 64:\n            raise ValueError(f\"'{hexid}' too small\")", "        if len(hexid) < 64:\n            continue", "C12.hextotal"),
     M("c12-sql-no-min", DB, "limit = min(filter_obj.limit, self.default_limit)", "limit = filter_obj.limit", "C12.cap", canary=True),
